@@ -220,6 +220,10 @@ class FnTaint:
                 if o in (">", ">="):
                     o = "<" if o == ">" else "<="
                     l, r = r, l
+                if o == "<=":
+                    # the same test with the outcome negated: `a <= b` is `!(b < a)`; a shape carries no polarity
+                    o = "<"
+                    l, r = r, l
                 if o in ("+", "*", "==", "!=", "&", "|") and r < l:
                     l, r = r, l
                 return "(%s %s %s)" % (l, o, r)
